@@ -205,6 +205,47 @@ def r4b_identity_by_id(run, F):
                "fields of identifiers read here: %s" % names)
 
 
+def r4c_label_set_consumed(run, F):
+    """The set "variables in scope at every goto to this label" lives in a per-module map keyed by the label's resolution id.  It is
+    taken out of the map at the label on *every* path through prune_at_label (MIR: each return is dominated by the `remove`), and
+    label ids are never handed out twice in a module (the label analyzer's counter is only ever incremented).  Either condition
+    alone keeps a stale set from meeting an unrelated label; a shortcut in front of the `remove` together with per-function label
+    ids lets a goto of one function prune the variables of another (spurious E482)."""
+    pl = F.body(AN + "prune_at_label")
+    cfg = mirq.CFG(pl)
+    rem = [i for i, t in cfg.calls() if (mirq.call_target(t) or "").endswith(("HashMap::remove", "BTreeMap::remove", "HashMap::remove_entry"))]
+    exits = cfg.exits()
+    consumed = bool(rem) and bool(exits) and all(any(cfg.dominates(r, e) for r in rem) for e in exits)
+    writes = []
+    for p, b in sorted(F.lib.bodies.items()):
+        if "hir" not in b or not F.rel(b["file"]).endswith("scoper/label_references.rs"):
+            continue
+        for n in walk(b["hir"]):
+            if n.get("k") in ("Assign", "AssignOp"):
+                l = hirq.unwrap_trivial(n["lhs"])
+                if l.get("k") == "Field" and l.get("name") == "resolution_id":
+                    inc = any(x is n for _, x in _field_increments(b["hir"]))
+                    writes.append((p.split("::")[-1], inc, b, n))
+    bad = [w for w in writes if not w[1]]
+    unique = bool(writes) and not bad
+    run.ob("R4-LABEL-SET-CONSUMED", "a stale goto set never meets another label", consumed or unique, F.where(bad[0][2], bad[0][3]) if bad else F.where(pl),
+           "either every return of prune_at_label is dominated by the removal of the label's entry from unresolved_labels (%s: %d removal(s), %d return block(s)) or "
+           "label ids are never reused in a module (%s: %d write(s) of the label analyzer's resolution_id, %d of them not an increment); with neither, the goto "
+           "set of one function prunes the variables of another" % (consumed, len(rem), len(exits), unique, len(writes), len(bad)))
+
+
+def _field_increments(node):
+    for n in walk(node):
+        if n.get("k") == "AssignOp" and n.get("op") in ("Add", "AddAssign"):
+            yield None, n
+        elif n.get("k") == "Assign":
+            l = hirq.unwrap_trivial(n["lhs"])
+            r = hirq.unwrap_trivial(n["rhs"])
+            if l.get("k") == "Field" and r.get("k") == "Binary" and r.get("op") == "Add" and \
+                    any(hirq.unwrap_trivial(r[s_]).get("k") == "Field" and hirq.unwrap_trivial(r[s_]).get("name") == l.get("name") for s_ in ("lhs", "rhs")):
+                yield None, n
+
+
 def r5_lookup(run, F):
     dv = F.body(AN + "declare_variable")
     loops = [m for m in hirq.matches(dv["hir"], msrc=None) if (m.get("msrc") or "").startswith("ForLoopDesugar")
@@ -372,6 +413,7 @@ def check(run):
     r3_passes(run, F)
     r4_pruning(run, F)
     r4b_identity_by_id(run, F)
+    r4c_label_set_consumed(run, F)
     r5_lookup(run, F)
     r6_codes(run, F)
     r7_visit(run, F)
